@@ -223,6 +223,32 @@ def _norm_fn(fn: ast.FunctionDef) -> str:
     return ast.dump(fn2, include_attributes=False)
 
 
+def _semantic_class(key: str, fn: ast.FunctionDef, what: str):
+    """Semantic normal form of a helper whose spelling may legitimately vary (None: no classifier for this key)."""
+    if key in ("broadcast_pre", "broadcast_post"):
+        from .c16 import _data_axis
+        return ("data axis", _data_axis(fn, what))
+    if key == "wsum":
+        from .c16 import _wsum_reduced_axis
+        return ("reduced axis", _wsum_reduced_axis(fn, what)[0])
+    if key == "interp_rows":
+        from .c08 import _check_interp_rows
+        good, why = _check_interp_rows(fn)
+        return ("row-wise interp", bool(good))
+    return None
+
+
+def _same_helper(key, fn_a, fn_b, what_a, what_b):
+    """(equal?, how) - syntactic equality after α-normalisation, else equality of the semantic class;
+    AnalysisError when the two spellings differ and nothing can compare them."""
+    if _strip_np(_norm_fn(fn_a)) == _strip_np(_norm_fn(fn_b)):
+        return True, "identical after normalisation"
+    ca, cb = _semantic_class(key, fn_a, what_a), _semantic_class(key, fn_b, what_b)
+    if ca is None or cb is None:
+        raise AnalysisError(f"C02-R5: helpers `{key}` ({what_a} vs {what_b}) are spelled differently and no semantic comparison is available")
+    return ca == cb, f"{ca[0]}: {ca[1]} vs {cb[1]}"
+
+
 def r5_helper_agreement(ctx, rid):
     regs = {be: H.Registry(ctx, be) for be in ("base", "torch", "jax")}
     base = regs["base"]
@@ -238,11 +264,10 @@ def r5_helper_agreement(ctx, rid):
             text, st = s
             helper = H.parse_pydef(text)
             twin = base.module.functions[fn.id].node
-            hd = _strip_np(_norm_fn(helper))
-            td = _strip_np(_norm_fn(twin))
+            same, how = _same_helper(key, helper, twin, f"def string {d.id}", f"numpy twin {fn.id}")
             construct = f"{base.module.rel}::{base.name}['{key}'] def/func twin"
-            if hd == td:
-                ob = ctx.ok(rid, None, None, f"def string `{d.id}` and its numpy twin `{fn.id}` are the same function")
+            if same:
+                ob = ctx.ok(rid, None, None, f"def string `{d.id}` and its numpy twin `{fn.id}` are the same function ({how})")
             else:
                 ob = ctx.violation(rid, None, None, f"def string `{d.id}` (emitted into generated code) and `{fn.id}` (used to evaluate the parsed "
                                                     f"expression) differ: the two evaluation paths disagree",
@@ -260,13 +285,13 @@ def r5_helper_agreement(ctx, rid):
         if len(defs) < 2:
             continue
         ref_be = "base" if "base" in defs else sorted(defs)[0]
-        ref = _norm_fn(defs[ref_be][0])
         for be, (fn, st, r) in defs.items():
             if be == ref_be:
                 continue
             construct = f"{r.module.rel}::{r.name}['{key}'] vs {ref_be}"
-            if _norm_fn(fn) == ref:
-                ob = ctx.ok(rid, None, None, f"{be} helper `{key}` is identical to the {ref_be} helper")
+            same, how = _same_helper(key, fn, defs[ref_be][0], f"{be} helper", f"{ref_be} helper")
+            if same:
+                ob = ctx.ok(rid, None, None, f"{be} helper `{key}` agrees with the {ref_be} helper ({how})")
             else:
                 ob = ctx.violation(rid, None, None, f"{be} helper `{key}` differs from the {ref_be} helper of the same registry key",
                                    {be: ast.unparse(fn), ref_be: ast.unparse(defs[ref_be][0])})
@@ -359,6 +384,14 @@ def _strip_np(dump: str) -> str:
     return re.sub(r"Attribute\(value=Name\(id='np', ctx=Load\(\)\), attr='(\w+)', ctx=Load\(\)\)", r"Name(id='\1', ctx=Load())", dump)
 
 
+
+def r_str_membership(ctx, rid):
+    """The argument lists handed to generated functions are filtered by membership in collections, never in strings
+    (shared lint, see _strmember_lint): a substring test silently drops arguments whose name is a substring of e.g. 'dy'."""
+    from ._strmember_lint import membership_in_string
+    membership_in_string(ctx, rid)
+
+
 RULES = [
     ("C02-R1", r1_interp, 3),
     ("C02-R2", r2_solver_siblings, 9),
@@ -366,4 +399,5 @@ RULES = [
     ("C02-R4", r4_index_base, 3),
     ("C02-R5", r5_helper_agreement, 10),
     ("C02-R6", r6_assignment_hooks_assign, 4),
+    ("C02-R7", r_str_membership, 1),
 ]
